@@ -47,6 +47,9 @@ func lookupModel(fn *ssa.Function) modelFn {
 	if m := streamModels(name); m != nil {
 		return mark(m)
 	}
+	if m := binaryModels(name); m != nil {
+		return mark(m)
+	}
 	switch {
 	case pkg == "github.com/sirupsen/logrus":
 		return mark(modelNoEffect)
